@@ -37,6 +37,7 @@ package queue
 //@   ensures [head]  q.items[0] == t
 //@   ensures [rest]  forall(j, 1, len(q.items), q.items[j] == old(q.items)[j-1])
 //@   ensures [nonil] NoNil(q.items)
+//@   ensures [fresh] fresh(q.items)
 
 //@ func (*TaskQueue).addLast
 //@   prop C05
@@ -46,6 +47,7 @@ package queue
 //@   ensures [tail]  q.items[len(q.items)-1] == t
 //@   ensures [rest]  forall(j, 0, len(old(q.items)), q.items[j] == old(q.items)[j])
 //@   ensures [nonil] NoNil(q.items)
+//@   ensures [base]  fresh(q.items) || base(q.items) == old(base(q.items))
 
 //@ func (*TaskQueue).removeFirst
 //@   prop C05
@@ -92,8 +94,9 @@ package queue
 //@   let n := old(len(q.items))
 //@   ensures [found]  k >= 0 ==> len(q.items) == n + 1 && forall(j, 0, k+1, q.items[j] == old(q.items)[j])
 //@        && q.items[k+1] == newTask && forall(j, k+2, n+1, q.items[j] == old(q.items)[j-1])
-//@   ensures [absent] k < 0 ==> sameseq(q.items, old(q.items))
+//@   ensures [absent] k < 0 ==> q.items == old(q.items)
 //@   ensures [nonil]  NoNil(q.items)
+//@   ensures [fresh]  k >= 0 ==> fresh(q.items)
 //@   loop 1
 //@     invariant 0 <= iter() && iter() <= n
 //@     invariant idFound == (k >= 0 && k < iter())
@@ -124,10 +127,11 @@ package queue
 //@   modifies q.items, elems(q.items)
 //@   let k := old(firstIdx(q.items, id))
 //@   let n := old(len(q.items))
-//@   ensures [absent] k < 0 ==> result == nil && sameseq(q.items, old(q.items))
+//@   ensures [absent] k < 0 ==> result == nil && q.items == old(q.items) && sameseq(q.items, old(q.items))
 //@   ensures [found]  k >= 0 ==> result == old(q.items[k]) && len(q.items) == n - 1
 //@        && forall(j, 0, k, q.items[j] == old(q.items)[j]) && forall(j, k, n-1, q.items[j] == old(q.items)[j+1])
 //@   ensures [nonil]  NoNil(q.items)
+//@   ensures [base]   base(q.items) == old(base(q.items))
 //@   loop 1
 //@     invariant 0 <= iter() && iter() <= n
 //@     invariant forall(j, 0, iter(), q.items[j].GetId() != id)
@@ -268,3 +272,60 @@ package queue
 //@   let n := old(len(q.items))
 //@   ensures [len]   filterFn != nil ==> len(q.items) == old(kept(q.items, filterFn, len(q.items)))
 //@   ensures [elems] filterFn != nil ==> forall(j, 0, n, old(filterFn(q.items[j])) ==> q.items[old(kept(q.items, filterFn, j))] == old(q.items[j]))
+
+// ---- the worker's result application (critical section of Start's goroutine) ----
+// With p = position of the handled task t (first task with its id), S = (Status == Success):
+//   items' = Head ++ old[0..p) ++ (S ? [] : [t]) ++ After ++ old(p..n) ++ Tail      (p >= 0)
+//   items' = Head ++ old ++ Tail                                                      (t no longer queued)
+//@ func (*TaskQueue).Start$1$1
+//@   prop C05
+//@   requires q != nil && t != nil && NoNil(q.items)
+//@   requires NoNil(taskRes.AfterTasks) && NoNil(taskRes.HeadTasks) && NoNil(taskRes.TailTasks)
+//@   requires (len(taskRes.AfterTasks) == 0 || base(taskRes.AfterTasks) != base(q.items)) && (len(taskRes.HeadTasks) == 0 || base(taskRes.HeadTasks) != base(q.items)) && (len(taskRes.TailTasks) == 0 || base(taskRes.TailTasks) != base(q.items))
+//@   modifies q.items, allelems(task.Task)
+//@   let id := t.GetId()
+//@   let p := old(firstIdx(q.items, t.GetId()))
+//@   let n := old(len(q.items))
+//@   let nA := old(len(taskRes.AfterTasks))
+//@   let nH := old(len(taskRes.HeadTasks))
+//@   let nT := old(len(taskRes.TailTasks))
+//@   let succ := old(taskRes.Status == Success)
+//@   let L := n + ite(p >= 0, nA, 0) - ite(p >= 0 && succ, 1, 0)
+//@   ensures [len]   len(q.items) == nH + L + nT
+//@   ensures [head]  forall(j, 0, nH, q.items[j] == old(taskRes.HeadTasks)[j])
+//@   ensures [middle-1] (p < 0 ==> forall(j, nH, nH+n, q.items[j] == old(q.items)[j-(nH)]))
+//@   ensures [middle-2] (p >= 0 ==> forall(j, nH, nH+p, q.items[j] == old(q.items)[j-(nH)]))
+//@   ensures [middle-3] (p >= 0 && !succ ==> q.items[nH+p] == old(q.items)[p] && forall(j, nH+p+1, nH+p+1+nA, q.items[j] == old(taskRes.AfterTasks)[j-(nH)-p-1]) && forall(j, nH+p+1+nA, nH+n+nA, q.items[j] == old(q.items)[j-(nH)-nA]))
+//@   ensures [middle-4] (p >= 0 && succ ==> forall(j, nH+p, nH+p+nA, q.items[j] == old(taskRes.AfterTasks)[j-(nH)-p]) && forall(j, nH+p+nA, nH+n-1+nA, q.items[j] == old(q.items)[j-(nH)-nA+1]))
+//@   ensures [tail]  forall(j, nH+L, nH+L+nT, q.items[j] == old(taskRes.TailTasks)[j-nH-L])
+//@   ensures [nonil] NoNil(q.items)
+//@   loop 1
+//@     invariant -1 <= i && i < nA || (nA == 0 && i == -1)
+//@     invariant NoNil(q.items) && (fresh(q.items) || base(q.items) == old(base(q.items))) && forall(j, 0, nA, taskRes.AfterTasks[j] == old(taskRes.AfterTasks)[j]) && forall(j, 0, nH, taskRes.HeadTasks[j] == old(taskRes.HeadTasks)[j]) && forall(j, 0, nT, taskRes.TailTasks[j] == old(taskRes.TailTasks)[j])
+//@     invariant (len(taskRes.AfterTasks) == 0 || base(taskRes.AfterTasks) != base(q.items)) && (len(taskRes.HeadTasks) == 0 || base(taskRes.HeadTasks) != base(q.items)) && (len(taskRes.TailTasks) == 0 || base(taskRes.TailTasks) != base(q.items))
+//@     invariant p < 0 ==> q.items == old(q.items) && sameseq(q.items, old(q.items))
+//@     invariant firstIdx(q.items, t.GetId()) == p
+//@     invariant p >= 0 ==> len(q.items) == n + (nA-1-i) && forall(j, 0, p+1, q.items[j] == old(q.items)[j])
+//@     invariant p >= 0 ==> forall(j, p+1, p+1+(nA-1-i), q.items[j] == old(taskRes.AfterTasks)[i+1+(j-p-1)])
+//@     invariant p >= 0 ==> forall(j, p+1+(nA-1-i), n+(nA-1-i), q.items[j] == old(q.items)[j-(nA-1-i)])
+//@   loop 2
+//@     invariant -1 <= i && i < nH || (nH == 0 && i == -1)
+//@     invariant NoNil(q.items) && (fresh(q.items) || base(q.items) == old(base(q.items))) && forall(j, 0, nA, taskRes.AfterTasks[j] == old(taskRes.AfterTasks)[j]) && forall(j, 0, nH, taskRes.HeadTasks[j] == old(taskRes.HeadTasks)[j]) && forall(j, 0, nT, taskRes.TailTasks[j] == old(taskRes.TailTasks)[j])
+//@     invariant (len(taskRes.TailTasks) == 0 || base(taskRes.TailTasks) != base(q.items)) && (len(taskRes.HeadTasks) == 0 || base(taskRes.HeadTasks) != base(q.items))
+//@     invariant len(q.items) == (nH-1-i) + L
+//@     invariant forall(j, 0, nH-1-i, q.items[j] == old(taskRes.HeadTasks)[i+1+j])
+//@     invariant (p < 0 ==> forall(j, (nH-1-i), (nH-1-i)+n, q.items[j] == old(q.items)[j-((nH-1-i))]))
+//@     invariant (p >= 0 ==> forall(j, (nH-1-i), (nH-1-i)+p, q.items[j] == old(q.items)[j-((nH-1-i))]))
+//@     invariant (p >= 0 && !succ ==> q.items[(nH-1-i)+p] == old(q.items)[p] && forall(j, (nH-1-i)+p+1, (nH-1-i)+p+1+nA, q.items[j] == old(taskRes.AfterTasks)[j-((nH-1-i))-p-1]) && forall(j, (nH-1-i)+p+1+nA, (nH-1-i)+n+nA, q.items[j] == old(q.items)[j-((nH-1-i))-nA]))
+//@     invariant (p >= 0 && succ ==> forall(j, (nH-1-i)+p, (nH-1-i)+p+nA, q.items[j] == old(taskRes.AfterTasks)[j-((nH-1-i))-p]) && forall(j, (nH-1-i)+p+nA, (nH-1-i)+n-1+nA, q.items[j] == old(q.items)[j-((nH-1-i))-nA+1]))
+//@   loop 3
+//@     invariant 0 <= iter() && iter() <= nT
+//@     invariant NoNil(q.items) && (fresh(q.items) || base(q.items) == old(base(q.items))) && forall(j, 0, nA, taskRes.AfterTasks[j] == old(taskRes.AfterTasks)[j]) && forall(j, 0, nH, taskRes.HeadTasks[j] == old(taskRes.HeadTasks)[j]) && forall(j, 0, nT, taskRes.TailTasks[j] == old(taskRes.TailTasks)[j])
+//@     invariant (len(taskRes.TailTasks) == 0 || base(taskRes.TailTasks) != base(q.items))
+//@     invariant len(q.items) == nH + L + iter()
+//@     invariant forall(j, 0, nH, q.items[j] == old(taskRes.HeadTasks)[j])
+//@     invariant (p < 0 ==> forall(j, nH, nH+n, q.items[j] == old(q.items)[j-(nH)]))
+//@     invariant (p >= 0 ==> forall(j, nH, nH+p, q.items[j] == old(q.items)[j-(nH)]))
+//@     invariant (p >= 0 && !succ ==> q.items[nH+p] == old(q.items)[p] && forall(j, nH+p+1, nH+p+1+nA, q.items[j] == old(taskRes.AfterTasks)[j-(nH)-p-1]) && forall(j, nH+p+1+nA, nH+n+nA, q.items[j] == old(q.items)[j-(nH)-nA]))
+//@     invariant (p >= 0 && succ ==> forall(j, nH+p, nH+p+nA, q.items[j] == old(taskRes.AfterTasks)[j-(nH)-p]) && forall(j, nH+p+nA, nH+n-1+nA, q.items[j] == old(q.items)[j-(nH)-nA+1]))
+//@     invariant forall(j, nH+L, nH+L+iter(), q.items[j] == old(taskRes.TailTasks)[j-nH-L])
